@@ -117,6 +117,11 @@ def e2e_monitor(case, il, sl):
         if death != ["none"]:
             return ("connection died after %s ms of silence although heartbeats are disabled" % death[0], "c17-zero")
         return None
+    if mode == "silent" and observe < 2 * h - 60:
+        # observed for less than 2h: silence must NOT have been fatal yet
+        if death != ["none"]:
+            return ("declared dead after %s ms of silence (heartbeat %d ms, 2h = %d ms): %s" % (death[0], h, 2 * h, close), "c17-early")
+        return None
     if mode == "silent":
         if death == ["none"]:
             return ("no byte from the server for %d ms (heartbeat %d ms) and the connection is still up" % (observe, h), "c17-not-enforced")
@@ -147,7 +152,11 @@ def gen_e2e(tier, seed):
              Case("e3", ["run 0 5 silent 2500"], {"keep_prefix": 0}), Case("e4", ["run 5 0 silent 2500"], {"keep_prefix": 0}),
              Case("e8", ["run 1 60 dribble 4500"], {"keep_prefix": 0}),
              # the NEGOTIATED interval counts (the lower of the two, 0 = off) - not either side's own wish
-             Case("e10", ["run 1 0 silent 2600"], {"keep_prefix": 0}), Case("e11", ["run 0 1 silent 2600"], {"keep_prefix": 0})]
+             Case("e10", ["run 1 0 silent 2600"], {"keep_prefix": 0}), Case("e11", ["run 0 1 silent 2600"], {"keep_prefix": 0}),
+             # a slow OpenOk (1.5 intervals after Tune): the timers run afterwards as announced
+             Case("e12", ["run 1 1 chatty 3300 openok-delay=1500"], {"keep_prefix": 0}), Case("e13", ["run 1 1 silent 3600 openok-delay=1500"], {"keep_prefix": 0}),
+             # a connection_timeout is about the handshake only: afterwards silence is judged by the heartbeats alone
+             Case("e14", ["run 0 0 silent 1500 timeout=300"], {"keep_prefix": 0}), Case("e15", ["run 3 3 silent 1500 timeout=300"], {"keep_prefix": 0})]
     if tier != "quick":
         cases += [Case("e5", ["run 2 2 silent 6000"], {"keep_prefix": 0}), Case("e6", ["run 2 3 chatty 12500"], {"keep_prefix": 0}),
                   Case("e7", ["run 1 1 chatty 6500"], {"keep_prefix": 0}), Case("e9", ["run 2 2 dribble 9000"], {"keep_prefix": 0})]
